@@ -458,7 +458,26 @@ func checkAddCommittedShape(P *core.Program, R *core.Report) {
 // returns the address the slice was loaded from and the index value i.
 func removeAtIndex(ff *core.FuncFacts, v ssa.Value) (loc ssa.Value, idx ssa.Value, ok bool) {
 	c, isCall := ff.Fwd(v).(*ssa.Call)
-	if !isCall || core.CalleeName(c.Common()) != "append" || len(c.Common().Args) != 2 {
+	if !isCall {
+		return nil, nil, false
+	}
+	plusOne := func(hi, lo ssa.Value) bool { // hi == lo + 1
+		bo, isBo := ff.Fwd(hi).(*ssa.BinOp)
+		if !isBo || bo.Op != token.ADD {
+			return false
+		}
+		k, isK := bo.Y.(*ssa.Const)
+		return isK && k.Value != nil && k.Value.ExactString() == "1" && ff.Fwd(bo.X) == ff.Fwd(lo)
+	}
+	// slices.Delete(s, i, i+1)
+	if sc := c.Common().StaticCallee(); sc != nil && sc.Pkg != nil && sc.Pkg.Pkg.Path() == "slices" && strings.HasPrefix(sc.Name(), "Delete") && len(c.Common().Args) == 3 {
+		ld, okL := c.Common().Args[0].(*ssa.UnOp)
+		if okL && ld.Op == token.MUL && plusOne(c.Common().Args[2], c.Common().Args[1]) {
+			return ld.X, ff.Fwd(c.Common().Args[1]), true
+		}
+		return nil, nil, false
+	}
+	if core.CalleeName(c.Common()) != "append" || len(c.Common().Args) != 2 {
 		return nil, nil, false
 	}
 	head, ok1 := ff.Fwd(c.Common().Args[0]).(*ssa.Slice)
